@@ -640,6 +640,32 @@ func main() {
 	defs = append(defs, "Record sel := { sel_cases : nat; sel_default : bool; sel_timer : bool; sel_under_lock : bool }.")
 	defs = append(defs, "(* every select statement of the anchored broker/muxer functions: (function key, ordinal, shape) *)\nDefinition select_table : list (string * nat * sel) := [\n"+strings.Join(selRows, ";\n")+"\n].")
 
+	// ---- MuxBroker.Run: does the non-blocking park close a stream it cannot park?
+	if run := findFunc(muxb, "MuxBroker", "Run"); run != nil {
+		closes := false
+		ast.Inspect(run, func(n ast.Node) bool {
+			ss, ok := n.(*ast.SelectStmt)
+			if !ok {
+				return true
+			}
+			for _, c := range ss.Body.List {
+				cc := c.(*ast.CommClause)
+				if cc.Comm == nil { // default branch
+					for _, st := range cc.Body {
+						ast.Inspect(st, func(m ast.Node) bool {
+							if ce, ok := m.(*ast.CallExpr); ok && strings.HasSuffix(exprString(ce.Fun), ".Close") {
+								closes = true
+							}
+							return true
+						})
+					}
+				}
+			}
+			return true
+		})
+		def("mux_run_closes_dropped", "bool", coqBool(closes), "mux_broker.go Run: the default branch of the park select closes the stream")
+	}
+
 	// ---- GRPCBroker.Accept (mux): is the listener registered before the knock goroutine is started?
 	acc := findFunc(grpcb, "GRPCBroker", "Accept")
 	if acc == nil {
